@@ -144,7 +144,8 @@ def history_machine(rng):
                 k = add(parent, key, rng.choice(["compound", "compound", "parallel"]))
                 grow(k, depth + 1)
             else:
-                k = add(parent, key, "atomic")
+                lk = "final" if (nodes[parent].kind == "compound" and j > 0 and rng.random() < 0.35) else "atomic"
+                k = add(parent, key, lk)
                 leaves.append(k)
             kids.append(k)
         if nodes[parent].kind == "compound":
